@@ -105,7 +105,7 @@ def Ty.wl : List Ty → Nat
   | t :: ts => 2 + t.w + Ty.wl ts
 def Ty.wm : List Member → Nat
   | [] => 0
-  | (_, _, t) :: ms => 2 + t.w + Ty.wm ms
+  | (_, _, t) :: ms => 8 + t.w + Ty.wm ms      -- 8: room for the entry type `Tuple[String[name], t]` (Iterable accepts Struct)
 end
 
 theorem Ty.w_pos (t : Ty) : 0 < t.w := by cases t <;> simp [Ty.w] <;> omega
